@@ -41,7 +41,7 @@
                          reverted and the reported probability is NaN (not in [0,1]);
      T = 0, change <> 0: -|c| / 0 = -Inf, exp = 0 -> never accepted, probability 0 (harmless).
    SetParameters accepts StartingTemperature = 0 (validator IsNonNegativeDecimal, default 0);
-   only SetTemperature rejects T <= 0.  See [nan_at_zero_temperature] in Properties/C04.v. *)
+   only SetTemperature rejects T <= 0.  See [C04_nan_at_zero_temperature] and [C04_temperature_can_underflow_to_zero] in Properties/C04.v. *)
 From Coq Require Import Floats ZArith Uint63 Bool List.
 Import ListNotations.
 Open Scope float_scope.
